@@ -22,6 +22,9 @@ pub const TARGETS: &[FnTarget] = &[
         havoc: &[("boxed", "opaque"), ("gc_box_ptr", "opaque"), ("size", "usize")],
         ignore_cfg_features: &["debug_trace_gc"],
     },
+    FnTarget { file: "memory.rs", owner: Some("Heap"), name: "mark_roots", lean: "gc_mark_roots", havoc: &[], ignore_cfg_features: &["debug_trace_gc"] },
+    FnTarget { file: "memory.rs", owner: Some("Heap"), name: "trace_references", lean: "gc_trace_references", havoc: &[], ignore_cfg_features: &["debug_trace_gc"] },
+    FnTarget { file: "memory.rs", owner: Some("Heap"), name: "sweep", lean: "gc_sweep", havoc: &[], ignore_cfg_features: &["debug_trace_gc"] },
     FnTarget { file: "compiler.rs", owner: Some("Precedence"), name: "from", lean: "precedence_from", havoc: &[], ignore_cfg_features: &[] },
     FnTarget { file: "compiler.rs", owner: Some("Compiler"), name: "patch_jump", lean: "patch_jump", havoc: &[], ignore_cfg_features: &[] },
     FnTarget { file: "compiler.rs", owner: Some("Compiler"), name: "resolve_local", lean: "compiler_resolve_local", havoc: &[], ignore_cfg_features: &[] },
@@ -85,6 +88,9 @@ pub const TARGETS: &[FnTarget] = &[
     FnTarget { file: "compiler.rs", owner: Some("Parser"), name: "block", lean: "parse_block", havoc: &[], ignore_cfg_features: &[] },
     FnTarget { file: "compiler.rs", owner: Some("Parser"), name: "begin_scope", lean: "begin_scope", havoc: &[], ignore_cfg_features: &[] },
 ];
+
+/// the methods of `Heap` translated over the heap of boxes
+const GC_PASSES: [&str; 3] = ["mark_roots", "trace_references", "sweep"];
 
 pub struct FnBodies {
     pub text: String,
@@ -229,8 +235,9 @@ fn translate_one(srcs: &[Src], db: &TypeDb, consts: &BTreeMap<String, i128>, t: 
             hard_inval: 0,
             epoch: 0,
             struct_params: BTreeMap::new(),
-            vm_mode: matches!(owner.as_deref(), Some("Vm") | Some("ObjFiber")),
+            vm_mode: matches!(owner.as_deref(), Some("Vm") | Some("ObjFiber")) || (owner.as_deref() == Some("Heap") && GC_PASSES.contains(&t.name)),
             fiber_mode: owner.as_deref() == Some("ObjFiber"),
+            gc_mode: owner.as_deref() == Some("Heap") && GC_PASSES.contains(&t.name),
         };
         let _ = cx.srcs;
         // enum-valued `impl From<usize> for Precedence`: the self type is the enum
@@ -368,7 +375,7 @@ fn translate_one(srcs: &[Src], db: &TypeDb, consts: &BTreeMap<String, i128>, t: 
             out_ty.push("(List Rs.Eff)".into());
         }
         if cx.vm_mode {
-            out_ty.push("Rs.Vm".into());
+            out_ty.push(if cx.gc_mode { "Rs.GcHeap".into() } else { "Rs.Vm".into() });
         }
         let out_text = if out_ty.len() == 1 { out_ty[0].clone() } else { format!("({})", out_ty.join(" × ")) };
         let mut sigtext = String::new();
@@ -385,8 +392,12 @@ fn translate_one(srcs: &[Src], db: &TypeDb, consts: &BTreeMap<String, i128>, t: 
             doc.push_str(&format!("  {} : {}\n", n, note));
         }
         if cx.vm_mode {
-            sigtext.push_str(" (vm_ : Rs.Vm)");
-            doc.push_str("  vm_ : the interpreter state the method runs on (operand stack, ip, constants, frame base); answers (return value, state afterwards)\n");
+            sigtext.push_str(if cx.gc_mode { " (vm_ : Rs.GcHeap)" } else { " (vm_ : Rs.Vm)" });
+            if cx.gc_mode {
+                doc.push_str("  vm_ : `self.objects`, the heap of boxes (Rs.GcHeap: the boxes, their colour cells, which of them the vector holds); answers (return value, heap afterwards)\n");
+            } else {
+                doc.push_str("  vm_ : the interpreter state the method runs on (operand stack, ip, constants, frame base); answers (return value, state afterwards)\n");
+            }
         }
         for (n, text) in &cx.cfg_inputs {
             sigtext.push_str(&format!(" ({} : Bool)", n));
@@ -645,6 +656,7 @@ fn new_cx<'a>(
         struct_params: BTreeMap::new(),
         vm_mode: false,
         fiber_mode: false,
+        gc_mode: false,
     }
 }
 
@@ -717,7 +729,7 @@ pub fn translate(srcs: &[Src], db: &TypeDb, limits: &crate::tables::Limits) -> R
         "-- Zero-argument methods treated as pure accessors of a place: {}\n",
         if accessors.is_empty() { "none".to_string() } else { accessors.iter().cloned().collect::<Vec<_>>().join(", ") }
     ));
-    text.push_str("import Yarel.Model.RustSem\n\nnamespace Yarel.Gen.Fns\nopen Yarel\nset_option linter.unusedVariables false\n");
+    text.push_str("import Yarel.Model.RustSem\nimport Yarel.Model.RustSemGc\n\nnamespace Yarel.Gen.Fns\nopen Yarel\nset_option linter.unusedVariables false\n");
     for e in &enums {
         if !e.starts_with('@') {
             text.push_str(&enum_decl(db, e));
